@@ -12,20 +12,20 @@
 """
 NAME = "k18_timelock"
 ENGINE = "kani"
-PROPS = ("C18", "C11")
+PROPS = ("C18", "C12", "C11")
 INJECT = [("src/miniscript/types/extra_props.rs", "contracts/kani/k18_timelock.rs")]
 TRUSTED = ["bitcoin::absolute::LockTime / bitcoin::Sequence are executed as compiled (not stubbed)"]
 DROPPED = ["Kani harnesses over real Concrete policy trees (timelock_info / check_timelocks): exceeded the 300 s budget even for a single leaf; dropped, see c18_timelock (Verus step)"]
 HARNESSES = [
-    dict(name="tl_combine_and", fn="TimelockInfo::combine_and", props=("C18", "C11"), kind="complete", tier="quick",
-         tags=["C18:combine_and.flags_are_union", "C18:combine_and.combination_iff_pairwise_conflict", "C18:combine_and.combination_direct"]),
-    dict(name="tl_combine_or", fn="TimelockInfo::combine_or", props=("C18", "C11"), kind="complete", tier="quick",
-         tags=["C18:combine_or.flags_are_union", "C18:combine_or.combination_only_inherited", "C18:combine_or.combination_direct"]),
-    dict(name="tl_combine_threshold_n4", fn="TimelockInfo::combine_threshold", props=("C18", "C11"), kind="bounded",
+    dict(name="tl_combine_and", fn="TimelockInfo::combine_and", props=("C18", "C12", "C11"), kind="complete", tier="quick",
+         tags=["C18,C12:combine_and.flags_are_union", "C18,C12:combine_and.combination_iff_pairwise_conflict", "C18,C12:combine_and.combination_direct"]),
+    dict(name="tl_combine_or", fn="TimelockInfo::combine_or", props=("C18", "C12", "C11"), kind="complete", tier="quick",
+         tags=["C18,C12:combine_or.flags_are_union", "C18,C12:combine_or.combination_only_inherited", "C18,C12:combine_or.combination_direct"]),
+    dict(name="tl_combine_threshold_n4", fn="TimelockInfo::combine_threshold", props=("C18", "C12", "C11"), kind="bounded",
          bound="n <= 4 children, any k: usize", tier="quick",
-         tags=["C18:combine_threshold.flags_are_union", "C18:combine_threshold.combination_iff_pairwise_conflict"]),
-    dict(name="tl_leaf_after", fn="ExtData::after", props=("C18", "C11"), kind="complete", tier="quick",
-         tags=["C18:leaf_after.height_iff_below_500M", "C18:leaf_after.time_iff_at_least_500M", "C18:leaf_after.nothing_else"]),
-    dict(name="tl_leaf_older", fn="ExtData::older", props=("C18", "C11"), kind="complete", tier="quick",
-         tags=["C18:leaf_older.domain", "C18:leaf_older.time_iff_type_flag", "C18:leaf_older.height_iff_no_type_flag", "C18:leaf_older.nothing_else"]),
+         tags=["C18,C12:combine_threshold.flags_are_union", "C18,C12:combine_threshold.combination_iff_pairwise_conflict"]),
+    dict(name="tl_leaf_after", fn="ExtData::after", props=("C18", "C12", "C11"), kind="complete", tier="quick",
+         tags=["C18,C12:leaf_after.height_iff_below_500M", "C18,C12:leaf_after.time_iff_at_least_500M", "C18,C12:leaf_after.nothing_else"]),
+    dict(name="tl_leaf_older", fn="ExtData::older", props=("C18", "C12", "C11"), kind="complete", tier="quick",
+         tags=["C18,C12:leaf_older.domain", "C18,C12:leaf_older.time_iff_type_flag", "C18,C12:leaf_older.height_iff_no_type_flag", "C18,C12:leaf_older.nothing_else"]),
 ]
